@@ -68,10 +68,16 @@ func (s *Streamer) Stream(ctx context.Context, sendTransaction SendTransactionFu
 		return err.msgf("newMysqlConn fail.")
 	}
 	defer conn.close()
+	// The reader goroutine must not outlive this call: when parsing stops for a
+	// reason the reader cannot see (handler, mapper or decode error) it may be
+	// parked handing over an event nobody will take. Cancelling a derived context
+	// on return releases it; s.ctx stays the caller's context for Error().
+	dumpCtx, cancelDump := context.WithCancel(ctx)
+	defer cancelDump()
 	s.sendTransaction = sendTransaction
 	var events <-chan replication.BinlogEvent
 	var pos Position
-	events, err = conn.startDumpFromBinlogPosition(ctx, s.serverID, s.binlogPosition())
+	events, err = conn.startDumpFromBinlogPosition(dumpCtx, s.serverID, s.binlogPosition())
 	if err != nil {
 		return err.msgf("startDumpFromBinlogPosition fail in pos: %+v", s.nowPos)
 	}
